@@ -7,7 +7,8 @@ from ..index import u, call_name, call_attr, walk_local, base_name
 from .. import flow
 from ..fold import try_fold
 from ..util import stmts_with_env, calls_with_env, assignments_to, single_def, kwarg, param_names
-from .common import method, unconditional_in
+from .common import method, unconditional_in, atom_text
+from . import shared
 
 RB = 'vermouth/processors/apply_rubber_band.py'
 MOL = 'vermouth/molecule.py'
@@ -325,4 +326,66 @@ def run(ck):
     ok = len(st2) == 2 and any('criterion(graph, ' in u(s.value) for s in st2) and any(u(s.targets[0].slice) == '(jdx, kdx)' and u(s.value) == 'share_domain[kdx, jdx]' for s in st2)
     ck.ob('PROV-connectivity', mod.loc(bpm), ok and 'itertools.combinations(selected_nodes, 2)' in u(bpm),
           'the domain matrix holds the criterion for every selected pair, symmetrically', key='PROV-connectivity|domain')
+    # ------------------------------------------------------------ the processor hands its settings on unchanged; only None falls back
+    cls = mod.cls('ApplyRubberBand')
+    rmol = ck.need(method(cls, 'run_molecule'), 'ApplyRubberBand.run_molecule vanished')
+    ck.analysed(mod, rmol)
+    calls = calls_with_env(rmol, lambda c: call_name(c) == 'apply_rubber_band')
+    ok = len(calls) == 1
+    if ok:
+        c, st, cond, env = calls[0]
+        want = {'lower_bound': 'self.lower_bound', 'upper_bound': 'self.upper_bound', 'decay_factor': 'self.decay_factor', 'decay_power': 'self.decay_power',
+                'base_constant': 'self.base_constant', 'minimum_force': 'self.minimum_force', 'domain_criterion': 'self.domain_criterion'}
+        ok = all(u(kwarg(c, k)) == v for k, v in want.items()) and [u(a) for a in c.args] == ['molecule', 'self.selector'] and flow.valid(cond)
+    ck.ob('PROV-settings', mod.loc(rmol), ok, 'the numeric settings, the selector and the domain criterion reach apply_rubber_band exactly as configured', key='PROV-settings|passthrough')
+    for name, var in (('res_min_dist', 'self.res_min_dist_variable'), ('bond_type', 'self.bond_type_variable')):
+        defs = stmts_with_env(rmol, lambda s_, name=name: isinstance(s_, ast.Assign) and u(s_.targets[0]) == name)
+        good = len(defs) == 2 and u(kwarg(calls[0][0], name)) == name if calls else False
+        if good:
+            plain = [d for d in defs if u(d[0].value) == 'self.' + name and flow.valid(d[1])]
+            fall = [d for d in defs if 'force_field.variables.get(' + var in u(d[0].value)]
+            good = len(plain) == 1 and len(fall) == 1 and plain[0][0].lineno < fall[0][0].lineno
+            if good:
+                names = {}
+                for k in flow.atoms_of(fall[0][1]):
+                    if k[0] == 'Is' and set(k[1:]) == {'None', 'self.' + name}:
+                        names[k] = 'UNSET'
+                good = flow.equivalent(flow.rename(fall[0][1], names), flow.parse_formula('UNSET'))[0] and len(names) == len(flow.atoms_of(fall[0][1]))
+        ck.ob('PROV-settings', mod.loc(rmol), good, '{} is the configured value; only when it is None (not merely 0) the force field variable / default is used'.format(name),
+              key='PROV-settings|' + name)
+    # domain criteria
+    sc = mod.func('same_chain')
+    ck.ob('DT-domain', mod.loc(sc), u(sc.body[-1].value) == "node_left.get('chain') == node_right.get('chain')" and
+          u(single_def(sc, 'node_left')) == 'graph.nodes[left]' and u(single_def(sc, 'node_right')) == 'graph.nodes[right]',
+          'chain domain: two atoms share a domain iff their chain attributes are equal', key='DT-domain|same_chain')
+    mk = mod.func('make_same_region_criterion')
+    inner = [f for f in mk.body if isinstance(f, ast.FunctionDef)]
+    ok = len(inner) == 1 and isinstance(mk.body[-1], ast.Return) and u(mk.body[-1].value) == inner[0].name
+    if ok:
+        sr = inner[0]
+        ck.analysed(mod, sr)
+        lp = [n_ for n_ in sr.body if isinstance(n_, ast.For) and u(n_.iter) == 'regions']
+        rets = stmts_with_env(sr, lambda s_: isinstance(s_, ast.Return))
+        tr = [r for r in rets if try_fold(r[0].value, default=0) is True]
+        fl = [r for r in rets if try_fold(r[0].value, default=1) is False]
+        ok = len(lp) == 1 and len(tr) == 1 and len(fl) == 1 and sr.body[-1] is fl[0][0] and any(tr[0][0] is n_ for n_ in ast.walk(lp[0])) and len(rets) == 2
+        if ok:
+            rel = stmts_with_env(sr, lambda s_: s_ is tr[0][0], stmts=lp[0].body, env={k: v for st_, c_, e_ in stmts_with_env(sr, lambda s_: s_ is lp[0]) for k, v in e_.items()})
+            names = {}
+            lo, hi = 'min({})'.format(u(lp[0].target)), 'max({})'.format(u(lp[0].target))
+            L = "graph.nodes[left].get('_old_resid', graph.nodes[left]['resid'])"
+            R = "graph.nodes[right].get('_old_resid', graph.nodes[right]['resid'])"
+            for k in flow.atoms_of(rel[0][1]):
+                if k == ('GtE', L, lo):
+                    names[k] = 'L_LO'
+                elif k == ('GtE', hi, L):
+                    names[k] = 'L_HI'
+                elif k == ('GtE', R, lo):
+                    names[k] = 'R_LO'
+                elif k == ('GtE', hi, R):
+                    names[k] = 'R_HI'
+            ok = len(names) == len(flow.atoms_of(rel[0][1])) == 4 and flow.equivalent(flow.rename(rel[0][1], names), flow.parse_formula('L_LO and L_HI and R_LO and R_HI'))[0]
+    ck.ob('DT-domain', mod.loc(mk), ok, 'region domain: two atoms share a domain iff SOME region contains both input residue numbers (bounds inclusive, either order); '
+          'every region is tried', key='DT-domain|same_region')
+    shared.truthy_zero(ck, [RB])
     ck.assume('matrix index arithmetic of numpy and the numeric values of the decay are not decided beyond the sample grid')
